@@ -29,6 +29,7 @@ type Spec struct {
 	MaxDepth        int               `json:"max_depth"`
 	MaxSteps        int64             `json:"max_steps"`
 	MaxSymLoop      int               `json:"max_sym_loop"`
+	SymLoopCut      bool              `json:"sym_loop_cut"` // exceeding max_sym_loop is a declared cut, not an inconclusive end
 	MaxAlloc        int               `json:"max_alloc"`
 	AllocLimit      int64             `json:"alloc_limit"` // >0: a symbolic allocation size that can exceed this many elements is a violation
 	MaxSummaryPaths int               `json:"max_summary_paths"`
